@@ -9,6 +9,14 @@ EMPHASIS = {
    * two cooperating code sites that each look fine alone,
    * a rarely used type / property / option combination, or a value class at a boundary (an exponent range, a particular digit pattern, a Unicode class, a list length, an ordering of dictionary keys),
    * a difference that only shows on ONE of several entry points / object forms / spec versions.""",
+ 6: """   * the MIRROR IMAGE of the defect one would think of first: where the obvious slip is "accepts too much", make it "refuses (or alters) something valid" - or the reverse; where it is
+     "forgets to copy", make it "copies / rebuilds where identity or metadata matters",
+   * SECOND-ORDER use: the result of one operation (new_version, add/remove/clear markings, parse, deepcopy, store.get / query, ObjectFactory.create, str(pattern)) fed into another
+     operation, where only the combination misbehaves,
+   * properties of RESULTS: order of a returned list, duplicates, list versus generator, the same object returned twice, a result that aliases an input or internal state,
+   * limits and degenerate sizes: 0 and 1 elements, 250/256-character names, the largest/smallest representable number, year 0001 / 9999, empty string versus missing, single-character keys,
+   * content whose spec version is implicit or mixed (no spec_version member, bundles holding both versions, a 2.1 observable inside a 2.0 container, custom types registered for one version only),
+   * the convenience layers (Environment, ObjectFactory, the object methods, stix2.parse of bundles and lists, datastore `relationships` / `related_to` / `creator_of`) dropping or re-defaulting something the core honours.""",
  5: """   * a SILENT change of data rather than a refusal: a value normalised, truncated, rounded, re-ordered, re-cased, de-duplicated, defaulted or dropped on one path only,
    * the API surface beyond the obvious calls: methods on objects (obj.new_version, obj.revoke, obj.serialize with keyword options, obj.add_markings / is_marked ...), the Environment
      and ObjectFactory wrappers, the workbench-style helpers, the small helpers in stix2.utils / stix2.versioning / stix2.markings.utils that several features share,
